@@ -1336,6 +1336,11 @@ impl super::DiskFS for Disk {
     }
     fn get(&mut self,path: &str) -> Result<super::FileImage,DYNERR> {
         let (maybe_parent,finfo) = self.goto_path(path)?;
+        if finfo.wildcard.len()>0 {
+            // the wildcard FileInfo has no first cluster, read_file would unwrap None
+            error!("wildcards are not allowed here");
+            return Err(Box::new(Error::Syntax));
+        }
         if let Some(parent) = maybe_parent {
             let mut fimg = self.read_file(&parent,&finfo)?;
             fimg.full_path = path.to_string();
